@@ -37,7 +37,7 @@ def run(chk):
     for name in ref_forms + extra_forms:
         def one(name=name):
             inst = F.form_instance(I, P, name)
-            site = inst.ci.lookup("__call__").site()
+            site = inst.ci.site_of("__call__")
             params = F.call_params(inst)
             if isinstance(params, tuple):
                 return polynomial(chk, P, I, inst)
@@ -91,7 +91,7 @@ def run(chk):
 
 
 def polynomial(chk, P, I, inst):
-    site = inst.ci.lookup("__call__").site()
+    site = inst.ci.site_of("__call__")
     r = ep.sym("r")
     total = 0
     for order in range(0, 17 if chk.tier == "thorough" else 9):
@@ -168,7 +168,7 @@ def several_declarations(chk, P, normal):
     ppf = P.cls("atsim.potentials.config._python_potential_function", "_Python_Potential_Function")
     pform = P.cls("atsim.potentials.config._potential_form", "Potential_Form")
     mk = I.module_global(mod, "make_potential_form_tuple_from_function")
-    site = pform.lookup("__call__").site()
+    site = pform.site_of("__call__")
     if "buck" in normal:
         inst, params, want = normal["buck"]
         d = I.call(mk, [Const("as.buck"), inst], {})
@@ -196,7 +196,7 @@ def registry_route(chk, P, normal, ref_forms, extra_forms):
     pform = P.cls("atsim.potentials.config._potential_form", "Potential_Form")
     pfe = P.cls("atsim.potentials.config._common", "Potential_Form_Exception")
     mk = I.module_global(mod, "make_potential_form_tuple_from_function")
-    site = pform.lookup("__call__").site()
+    site = pform.site_of("__call__")
     for name in ref_forms + extra_forms:
         if name not in normal:
             continue
@@ -208,7 +208,7 @@ def registry_route(chk, P, normal, ref_forms, extra_forms):
         v = I.num(I.call(func, F.sym_args(params), {}))
         ok, why = ep.equal(v, want)
         chk.ob("C06.O5", "as.%s(r, %s) called from a formula evaluates the same function" % (name, ", ".join(params[1:])), ok,
-               site=ppf.lookup("__call__").site(), found=why or v, expect=want, key="C06.O5|%s|function-use" % name)
+               site=ppf.site_of("__call__"), found=why or v, expect=want, key="C06.O5|%s|function-use" % name)
         # form use: 'as.NAME params...' -> callable of r
         pf = I.instantiate(pform, [func], {}, None)
         f = I.call(pf, F.sym_args(params[1:]), {})
@@ -252,5 +252,5 @@ def registry_route(chk, P, normal, ref_forms, extra_forms):
             out = e.exc
         ok = isinstance(out, ExcV) and isinstance(out.cls, ClassV) and out.cls.ci.is_subclass_of(pfe)
         chk.ob("C06.O5", "as.buck used as %s with %d arguments is rejected with Potential_Form_Exception" % (use, n), ok,
-               site=P.cls("atsim.potentials.config._potential_form", "_Check_Call").lookup("__call__").site(), found=out,
+               site=P.cls("atsim.potentials.config._potential_form", "_Check_Call").site_of("__call__"), found=out,
                expect="Potential_Form_Exception", key="C06.O5|arity|%s-%d" % (use, n))
